@@ -11,7 +11,7 @@ package fsnotify
 //@ def specOpKqueue(mask uint32) := ite(specOpKqueueRaw(mask) & Remove != 0, specOpKqueueRaw(mask) &^ Write, specOpKqueueRaw(mask))
 
 //@ func (w *kqueue) newEvent(name string, linkName string, mask uint32) (e Event)
-//@   ensures e.Op == specOpKqueue(mask)                                         [C15] "kqueue flags map to the documented operations, the union of the parts, dropping Write when Remove is present"
+//@   ensures e.Op == specOpKqueue(mask)                                         [C15 C17 C18] "kqueue flags map to the documented operations, the union of the parts, dropping Write when Remove is present"
 //@   ensures e.Name == ite(linkName != "", linkName, name)                      [C18] "events are named under the watched path as the user spelled it"
 //@   ensures e.renamedFrom == ""
 
@@ -158,6 +158,7 @@ package fsnotify
 //@   ensures nolocks()
 //@   ensures Recorded(w)                                                                                                       [C17] "a descriptor opened for a watch is either recorded in the table (so that it is closed when the watch ends) or closed at once"
 //@   ensures err == nil && listDir ==> res == "" || res == filepath.Clean(name)                                                [C18]
+//@   ensures err == nil && listDir && has(old(w.watches.path), filepath.Clean(name)) && has(old(w.watches.wd), old(w.watches.path)[filepath.Clean(name)]) ==> res == filepath.Clean(name)                                          [C18] "a path that is watched already is answered with its name (the caller marks that name as seen)"
 //@   let p = filepath.Clean(name)
 //@   let hadWrite = has(old(w.watches.path), p) && has(old(w.watches.wd), old(w.watches.path)[p]) && old(w.watches.wd)[old(w.watches.path)[p]].dirFlags & unix.NOTE_WRITE != 0
 //@   local info watch
@@ -174,6 +175,7 @@ package fsnotify
 //@   ensures KWf(w)
 //@   ensures nolocks() && Recorded(w)                                                                                          [C17]
 //@   ensures err == nil ==> res == "" || res == filepath.Clean(name)                                                           [C18]
+//@   ensures err == nil && has(old(w.watches.path), filepath.Clean(name)) && has(old(w.watches.wd), old(w.watches.path)[filepath.Clean(name)]) ==> res == filepath.Clean(name)                                                      [C18] "an entry that is watched already (added by the user, say) is answered with its name, so that the directory listing marks it as seen and it is never reported as created"
 //@   ensures hist(w.Events) == old(hist(w.Events))                                                                             [C18]
 
 //@ func (w *kqueue) watchDirectoryFiles(dirPath string) (err error)
@@ -211,6 +213,9 @@ package fsnotify
 //@   local path watch
 //@   atcall shared.sendEvent: ok && path.linkName == "" && arg_e.Op & (Rename | Remove) != 0 ==> lastRemoved == path.name     [C17] "a Rename or Remove notification ends the watch: before it is reported, the removal of that watch has been carried out"
 //@   atcall kqueue.dirChange: ok && path.linkName == "" && event.Op & (Rename | Remove) != 0 ==> lastRemoved == path.name      [C17] "also when the notification is a directory change combined with a rename"
+//@   local mask uint32
+//@   atcall shared.sendEvent: ok && path.linkName == "" && mask & (unix.NOTE_DELETE | unix.NOTE_RENAME) != 0 ==> lastRemoved == path.name     [C17] "whatever else the kernel reports in the same notification, a deletion or renaming of the watched path ends its watch"
+//@   atcall kqueue.dirChange: event.Op & Remove != 0 ==> hist(w.Events) == snoc(atIter(hist(w.Events)), event)                [C18] "a watched directory that is deleted has its Remove reported; it is listed again only after that (never instead of it)"
 //@   atcall kqueue.dirChange: arg_dir == event.Name || arg_dir == filepath.Clean(event.Name)                                 [C18] "a changed directory is listed again under the name its events are reported with (the spelling it was added under), the name its seen marks are kept under"
 //@   atcall kqueue.remove: !arg_unwatchFiles                                                                                  [C18 C17] "when a watched directory disappears only its own watch is dropped here: the watches of its entries end with their own notifications, so that each entry still reports its Remove"
 //@   atcall kqueue.remove: path.linkName == "" && arg_name == filepath.Clean(arg_name) ==> arg_name == path.name              [C17] "when a path watched under its own name is deleted or renamed, the removal is asked for under that name"
